@@ -113,7 +113,7 @@ def e (impl method : String) (cls : WClass) (note : String := "") : Entry := ⟨
     written, operands are only read). -/
 def pointMethods : List String :=
   ["MarshalBinary", "MarshalTo", "String", "Equal", "Clone", "Data", "operand:Add", "operand:Sub", "operand:Neg",
-   "operand:Mul", "operand:Set", "MarshalSize"]
+   "operand:Mul", "operand:Set", "MarshalSize", "mixed read-only use"]
 
 def scalarMethods : List String :=
   ["MarshalBinary", "MarshalTo", "String", "Equal", "Clone", "operand:Add", "operand:Sub", "operand:Neg",
